@@ -37,6 +37,10 @@ def cases(tier, seed):
         cs.append({"kind": "gen", "gen": dict(seed=seed + 5150 + j, ndims=nd, nlevels=1, base=[2] * nd, bf=2, maxsz=2,
                                               names=["f0", "f1", "f2"], payload="random", nfiles=1),
                    "fmt": {}, "deepen": 11, "sel_seed": seed * 7 + 5150 + j, "budget": 170})
+    # scale: more than a thousand (2D) / several hundred (3D) boxes at a level, spread over ~ 96 binary files
+    for j, nd in enumerate((2, 3) if tier == "thorough" else ((2, 3)[(seed + 1) % 2],)):
+        cs.append({"kind": "gen", "scale": "manyboxes", "gen": dict(seed=seed + 6160 + j, ndims=nd, nfields=3),
+                   "fmt": {}, "sel_seed": seed * 7 + 6160 + j, "budget": 60})
     if tier == "thorough":
         for a in ("example_plt_2d", "example_plt_3d", "plt1_Y", "plt2_F", "plt_eb_3d"):
             cs.append({"kind": "asset", "asset": a, "sel_seed": seed, "budget": 120})
